@@ -183,6 +183,9 @@ var opSchemeLists = [][]string{nil, {"http"}, {"https"}, {"http", "https"}, {"ht
 func genSchemes(t *rapid.T, c *Case) {
 	c.RtSchemes = rapid.SampledFrom(rtSchemeLists).Draw(t, "rtschemes")
 	c.OpSchemes = rapid.SampledFrom(opSchemeLists).Draw(t, "opschemes")
+	for i, n := 0, rapid.SampledFrom([]int{0, 0, 0, 1, 2}).Draw(t, "earlier-operations"); i < n; i++ {
+		c.Earlier = append(c.Earlier, rapid.SampledFrom(opSchemeLists).Draw(t, "earlier-schemes"))
+	}
 	if rapid.IntRange(0, 9).Draw(t, "freeschemes") == 0 {
 		gen := rapid.SliceOfN(rapid.SampledFrom([]string{"http", "https", "ws", "wss", "h2c"}), 0, 4)
 		c.RtSchemes = gen.Draw(t, "rtfree")
